@@ -31,6 +31,8 @@ func TestVerifC04Dedup(t *testing.T) {
 		name    string
 		lists   [][]string
 		scripts map[string][]int
+		ups     map[string][]int // outcome of successive response-upload attempts per ID
+		sizes   map[string]int   // response size per ID (default 10)
 	}
 	var hs []hist
 	mk := func(prefix string, ns ...[]int) [][]string {
@@ -93,6 +95,25 @@ func TestVerifC04Dedup(t *testing.T) {
 		}
 		hs = append(hs, hist{name: "fetch-failures", lists: [][]string{ids, ids}, scripts: sc})
 	}
+	// response-upload failures after the backend has already executed the request: transport errors and 5xx,
+	// as many as the upload retries absorb and more, small responses and ones beyond the replay buffer
+	{
+		ups := map[string][]int{}
+		sizes := map[string]int{}
+		var ids []string
+		n := 0
+		for _, sz := range []int{10, 6000, 70000} {
+			for _, sc := range [][]int{{verifNetErr}, {verifNetErr, verifNetErr}, {verifNetErr, verifNetErr, verifNetErr}, {verifNetErr, verifNetErr, verifNetErr, verifNetErr, verifNetErr, verifNetErr, verifNetErr, verifNetErr, verifNetErr},
+				{verif500}, {verif500, verif500, verif500}, {verif500, verifNetErr, verif500, verifNetErr, verif500, verifNetErr, verif500, verifNetErr, verif500}} {
+				n++
+				id := fmt.Sprintf("h7-%d", n)
+				ids = append(ids, id)
+				ups[id] = sc
+				sizes[id] = sz
+			}
+		}
+		hs = append(hs, hist{name: "upload-failures", lists: [][]string{ids, ids, {}, ids}, ups: ups, sizes: sizes})
+	}
 	nrand := 12
 	if verifThorough() {
 		nrand = 300
@@ -146,7 +167,14 @@ func TestVerifC04Dedup(t *testing.T) {
 			}
 			for id := range ids {
 				// slow responses so that uploads are still in flight during later polls
-				fp.addRequest(id, "u@example.com", verifRawRequest("GET", id, 10, 5+len(id)%20, nil, nil), h.scripts[id])
+				sz := 10
+				if h.sizes[id] > 0 {
+					sz = h.sizes[id]
+				}
+				fp.addRequest(id, "u@example.com", verifRawRequest("GET", id, sz, 5+len(id)%20, nil, nil), h.scripts[id])
+				if u := h.ups[id]; len(u) > 0 {
+					fp.upScript[id] = u
+				}
 			}
 			ctx, cancel := context.WithCancel(context.Background())
 			fp.afterList = cancel
@@ -159,7 +187,11 @@ func TestVerifC04Dedup(t *testing.T) {
 				out.emit(map[string]interface{}{"kind": "history", "name": h.name, "error": "poll loop did not stop"})
 				return
 			}
-			fp.quiesce(400*time.Millisecond, 20*time.Second, nil)
+			idle := 400 * time.Millisecond
+			if len(h.ups) > 0 {
+				idle = 1500 * time.Millisecond
+			}
+			fp.quiesce(idle, 40*time.Second, nil)
 			inv := map[string]int{}
 			for _, v := range be.invocations() {
 				if ids[v.Tok] {
@@ -182,7 +214,7 @@ func TestVerifC04Dedup(t *testing.T) {
 					scripts[id] = s
 				}
 			}
-			out.emit(map[string]interface{}{"kind": "history", "index": hi, "name": h.name, "lists": h.lists, "fetch_scripts": scripts,
+			out.emit(map[string]interface{}{"kind": "history", "index": hi, "name": h.name, "lists": h.lists, "fetch_scripts": scripts, "upload_scripts": h.ups,
 				"invocations": inv, "uploads": ups, "fetch_attempts": att})
 		}(hi, h)
 	}
